@@ -517,13 +517,13 @@ func main() {
 	}
 	explore.Main(&explore.Config{
 		Property: "C06", Level: "exploration",
-		Rule: "(a) one/two-rule documents: every extracted field (alert, expr, for, keep_firing_for, label/annotation values, quoted label key) x 17 scalar styles (plain, quoted, literal/folded with every chomping indicator, indentation indicator, 1- and 4-space block indents, multi-line plain/quoted, blank lines) x value vocabulary stressing the greedy matcher x comment/blank placement x 5 layouts x field order x final newline, all documents with <=k non-default choices (k=2 quick, 3 thorough), strict and relaxed; (b) every YAML fixture of the repository x 6 whole-file transforms x 2 modes. Oracle needs no hand-written expectation: the file read at YamlNode.Pos must spell YamlNode.Value; every sub-range through readRange; every diagnostic of every default check. distinct = distinct (mode, bytes); non-trivial = at least one rule parsed / one non-default choice",
+		Rule: "(a) one/two-rule documents: every extracted field (alert, expr, for, keep_firing_for, label/annotation values, quoted label key) x 17 scalar styles (plain, quoted, literal/folded with every chomping indicator, indentation indicator, 1- and 4-space block indents, multi-line plain/quoted, blank lines) x value vocabulary stressing the greedy matcher x comment/blank placement x 5 layouts x label/annotation keys indented by 2, 1 or 3 (a free dimension, not a deviation) x field order x final newline, all documents with <=k non-default choices (k=2 quick, 3 thorough), strict and relaxed; (b) every YAML fixture of the repository x 6 whole-file transforms x 2 modes. Oracle needs no hand-written expectation: the file read at YamlNode.Pos must spell YamlNode.Value; every sub-range through readRange; every diagnostic of every default check. distinct = distinct (mode, bytes); non-trivial = at least one rule parsed / one non-default choice",
 		Assumptions: []string{
 			"fields on lines using quoting escapes (backslash in double quotes, '' in single quotes) are skipped and counted: no source characters spell such values",
 			"a value space or newline may map to the end-of-line position of the source (folding); trailing blanks of block scalars need no position",
 		},
 		Spaces: []*explore.Space{
-			{Name: "styled", Body: styled, Setup: setup, Bound: func(t string) int {
+			{Name: "styled", Body: styled, Setup: func(t string) { rulegen.NestedIndents = []int{2, 1, 3}; setup(t) }, Bound: func(t string) int {
 				if t == "thorough" {
 					return 3
 				}
